@@ -5,6 +5,7 @@ import (
 	"fmt"
 	"go/types"
 	"reflect"
+	"sort"
 )
 
 // Models needed by the C40 (message event projection) harness; the Marshal model has one special case for C18.
@@ -154,6 +155,49 @@ func init() {
 			if !ok {
 				e.unsupported(fmt.Sprintf("encoding/json.Unmarshal model: target %s is not a pointer", target.t))
 			}
+			if mt, ok := pt.Elem().Underlying().(*types.Map); ok {
+				// map[string]json.RawMessage (exact, concrete operands only)
+				if fieldType(e, mt.Elem()) != rawMessage || fieldType(e, mt.Key()).Kind() != reflect.String {
+					e.unsupported(fmt.Sprintf("encoding/json.Unmarshal model: map target %s", target.t))
+				}
+				ptr := target.v.(Pointer)
+				m, _ := e.load(ptr).(*MapObj)
+				gm := map[string]json.RawMessage{}
+				if m != nil {
+					for _, en := range m.entries {
+						k, ok := en.key.(*Str).Concrete()
+						if !ok {
+							e.unsupported("encoding/json model: symbolic map key")
+						}
+						gm[k] = concreteBytes(e, en.val.(Slice), "map value")
+					}
+				}
+				wasNil := m == nil
+				err := json.Unmarshal(data, &gm)
+				if err != nil {
+					return e.newOpaqueErr("<json.Unmarshal: "+err.Error()+">", nil)
+				}
+				if wasNil {
+					e.unsupported("encoding/json.Unmarshal model: nil map target")
+				}
+				keys := make([]string, 0, len(gm))
+				for k := range gm {
+					keys = append(keys, k)
+				}
+				sort.Strings(keys)
+				for _, k := range keys {
+					var val Value = Slice{}
+					if gm[k] != nil {
+						ts := make([]*Term, len(gm[k]))
+						for i, c := range gm[k] {
+							ts[i] = e.ts.BV(8, uint64(c))
+						}
+						val = e.newByteSlice(ts)
+					}
+					e.mapUpdate(m, &Str{s: k}, val)
+				}
+				return Iface{}
+			}
 			st, ok := pt.Elem().Underlying().(*types.Struct)
 			if !ok {
 				e.unsupported(fmt.Sprintf("encoding/json.Unmarshal model: target %s is not a pointer to struct", target.t))
@@ -177,6 +221,10 @@ func init() {
 			return Iface{}
 		}
 
+		p.intrinsics["encoding/json.Valid"] = func(e *Exec, fr *frame, args []Value) Value {
+			return e.ts.Bool(json.Valid(concreteBytes(e, args[0].(Slice), "input bytes")))
+		}
+
 		p.intrinsics["encoding/json.Marshal"] = func(e *Exec, fr *frame, args []Value) Value {
 			src, ok := args[0].(Iface)
 			if !ok || src.t == nil {
@@ -192,6 +240,41 @@ func init() {
 					bs[i] = e.newInput(fmt.Sprintf("json.Marshal(checksumClusterState)[%d]", i), 8)
 				}
 				return Tuple{e.newByteSlice(bs), Iface{}}
+			}
+			emit := func(out []byte, err error) Value {
+				if err != nil {
+					return Tuple{Slice{}, e.newOpaqueErr("<json.Marshal: "+err.Error()+">", nil)}
+				}
+				ts := make([]*Term, len(out))
+				for i, c := range out {
+					ts[i] = e.ts.BV(8, uint64(c))
+				}
+				return Tuple{e.newByteSlice(ts), Iface{}}
+			}
+			if b, ok := src.t.Underlying().(*types.Basic); ok && b.Kind() == types.String {
+				cs, ok := src.v.(*Str).Concrete()
+				if !ok {
+					e.unsupported("encoding/json.Marshal model: symbolic string")
+				}
+				return emit(json.Marshal(cs))
+			}
+			if mt, ok := src.t.Underlying().(*types.Map); ok {
+				if fieldType(e, mt.Elem()) != rawMessage || fieldType(e, mt.Key()).Kind() != reflect.String {
+					e.unsupported(fmt.Sprintf("encoding/json.Marshal model: map value %s", src.t))
+				}
+				m, _ := src.v.(*MapObj)
+				if m == nil {
+					return emit(json.Marshal(map[string]json.RawMessage(nil)))
+				}
+				gm := map[string]json.RawMessage{}
+				for _, en := range m.entries {
+					k, ok := en.key.(*Str).Concrete()
+					if !ok {
+						e.unsupported("encoding/json model: symbolic map key")
+					}
+					gm[k] = concreteBytes(e, en.val.(Slice), "map value")
+				}
+				return emit(json.Marshal(gm))
 			}
 			st, ok := src.t.Underlying().(*types.Struct)
 			if !ok {
